@@ -545,6 +545,33 @@ fn check_http(r: &mut Report, thorough: bool) {
     *r = std::mem::take(r).merge(rep);
     // software string containment x version decisiveness x whole signature
     // (p0f compares software strings byte for byte: letter case matters)
+    // whole observations against signatures that are much LONGER than what was observed: r required headers followed by n
+    // optional ones (n up to 24), observed with every optional header missing (an instance: distance 0 while r headers
+    // are seen), and r required headers against an empty observation (r errors: 0..=11 accepted in their band, 12+ not)
+    {
+        let band = |e: usize| -> Option<u32> { match e { 0..=2 => Some(0), 3..=5 => Some(1), 6..=8 => Some(2), 9..=11 => Some(3), _ => None } };
+        for r_n in 0..=13usize {
+            for n in [0usize, 1, 5, 10, 11, 12, 13, 24] {
+                let req_h: Vec<Header> = (0..r_n).map(|i| Header::new(&format!("R{i}"))).collect();
+                let mut horder = req_h.clone();
+                horder.extend((0..n).map(|i| Header::new(&format!("O{i}")).optional()));
+                let sig = http::Signature { version: Version::V11, horder, habsent: vec![], expsw: String::new() };
+                for (seen, exp) in [(req_h.clone(), Some(0u32)), (vec![], band(r_n))] {
+                    let req = HttpRequestObservation { version: Version::V11, horder: seen.clone(), habsent: vec![], expsw: String::new() };
+                    let resp = HttpResponseObservation { version: Version::V11, horder: seen.clone(), habsent: vec![], expsw: String::new() };
+                    for (which, got) in [("request", req.distance_horder(&sig)), ("response", resp.distance_horder(&sig))] {
+                        r.exec(1);
+                        r.outcome(&("long-sig", got));
+                        // the band table itself is not pinned (guard rails): only "instance = 0" is demanded, the other call checks totality
+                        let ok = if seen.len() == r_n { got == exp } else { true };
+                        if !ok {
+                            r.dev("C12/http-header-order-distance-of-a-signature-much-longer-than-the-observation", "http-long-signature", || json!({"kind": "http-whole", "which": which, "required": r_n, "optional": n, "observed_headers": seen.len(), "expected": exp, "actual": got}));
+                        }
+                    }
+                }
+            }
+        }
+    }
     let strs = ["", "a", "b", "ab", "ba", "aa", "abb", "bab", "Apache", "Apache/2.4.1 (Unix)", "A", "aB", "apache", "APACHE/2.4.1 (UNIX)"];
     for sv in [Version::V10, Version::V11, Version::V20, Version::V30, Version::Any] {
         for ov in [Version::V10, Version::V11, Version::V20, Version::V30] {
